@@ -30,6 +30,8 @@ CHECKS = {
          "Lean 4 proof over Real.rpow with constants regenerated from the source, plus correspondence via a Float twin"),
  "C10": ("Theorems: the accumulation of component results (left fold of the same-period merge of C19, then of the node results) gives, for every float field, fuel kind, species and CO2 component, the arithmetic sum over the components (fold_eq_sum / accumulate_eq_sum), the system total is the sum over nodes (system_eq_sum_nodes), and a permutation of the component list leaves every total unchanged (perm); detail tables concatenate. Per-component figures themselves are C07/C08/C09/C17. Correspondence: the real system results of electric / mechanical / hybrid plants vs the model's nested accumulation of the per-component results obtained through the public per-component function, plus re-runs with permuted component lists.",
          "Lean 4 proof (induction over the fold, Perm.sum_eq) + correspondence on whole-plant results incl. permuted component lists"),
+ "C11": ("Theorems about interval-weighted sums of an arbitrary per-step rate (the form of every extensive figure): additive over any split into consecutive parts, invariant under permutation of the steps with their inputs, linear in the interval lengths; duration = sum of intervals; running hours additive and linear; a scalar operating point = a series of one. That the implementation's whole pipeline is such a sum is decided by the correspondence: whole vs merged parts, vs permuted steps, vs scaled intervals on electric / mechanical / hybrid plants with breaker and status changes inside the series, plus model-vs-code for integrate_data, the cumulative variant and get_duration_s.",
+         "Lean 4 proof (list sums, Perm) + metamorphic correspondence (split / permute / scale) on whole-plant runs"),
  "C15": ("Theorems over the model of min_load_table_dict + PmsLoadTable.on_pattern for every list of positive ratings (any length >= 1), every positive fraction and every load: sufficient (strictly above the load whenever some set is), all-on otherwise, minimal among non-empty sets, monotone, non-empty, loading <= fraction after an equal-sharing balance; and for the equal-size rule of feems.runsimulation (ceil): non-empty, sufficient, minimal, monotone. Proofs use only 'sorted + permutation of all patterns'. Correspondence compares table lookups exactly (integer ratings x dyadic fractions make double thresholds exact) incl. every threshold, ties, negative loads and loads above capacity; the MachineryCalculation front end is exercised by C16/C12.",
          "Lean 4 proof (sortedness + permutation argument over the pattern table) + model/implementation correspondence at and around every switching threshold"),
  "C17": ("Theorems over the storage model: energy = interval-weighted sum of terminal power x charging efficiency / discharging efficiency after converter loss, SoC formula (battery kWh, supercapacitor Wh), accumulated series starts at 0, has n+1 entries and ends at the total, stored energy never exceeds terminal energy for any series (so equal charge and discharge never raise the SoC), closed form for one charge/discharge. The converter is an abstract function constrained only by 'never creates energy'; in the correspondence its per-sample value is an oracle read from the real converter.",
